@@ -127,6 +127,10 @@ class Eval:
                 self.bind_pat(q, term, env, default_param, path + (("tuple", str(i)),))
             return
         if k == "Or":
+            if isinstance(term, tuple) and term[:1] in (("ctor",), ("lit",)) and not path:
+                hit = [q for q in p["pats"] if pat_vs_term(q, term) is True]
+                if hit:
+                    return self.bind_pat(hit[0], term, env, default_param, path)
             alts = []
             for q in p["pats"]:
                 ea = {}
@@ -740,7 +744,7 @@ class Eval:
             if m == "into":
                 return self.conv(e, recv, depth)
             return recv
-        if m == "for_each" and len(e["args"]) == 1 and strip(e["args"][0]).get("k") == "Closure" and "Iterator::for_each" in (callee_generic(e) or ""):
+        if m in ("for_each", "try_for_each") and len(e["args"]) == 1 and strip(e["args"][0]).get("k") == "Closure" and ("Iterator::for_each" in (callee_generic(e) or "") or "Iterator::try_for_each" in (callee_generic(e) or "")):
             # `it.for_each(|x| BODY)` is `for x in it { BODY }`
             cl = strip(e["args"][0])
             elem = self.loop_args.pop(0) if self.loop_args else ("each", recv)
@@ -755,7 +759,7 @@ class Eval:
             self.effect(cl["body"], env, depth)
             self.returns = saved
             self.loops.pop()
-            return ("unit",)
+            return ("unit",) if m == "for_each" else ("ctor", "Result::Ok", (("0", ("unit",)),))
         if self.stateful_map_as_loop and m == "map" and len(e["args"]) == 1 and strip(e["args"][0]).get("k") == "Closure" and "Iterator::map" in (callee_generic(e) or "") \
                 and any(l_ in env for l_ in self.mutated_locals(strip(e["args"][0])["body"])):
             # `it.map(|x| { ..mutates captured locals..; V })` is `for x in it { ..; out.push(V) }`: the closure runs once per element, in order
